@@ -691,4 +691,46 @@ def serveConn (opt : Bool) (base : Bytes) : List Plan → Inp → List (Option R
     let (q, w, keep, i') := serveStep opt base p i
     (q, w) :: (if keep then serveConn opt base ps i' else ps.map (fun _ => (none, [])))
 
+/-! ## many connections served at once
+
+`SocketServer` gives every accepted connection its own thread running `serve(Socket)`; the per-connection state is the
+connection's own `Socket` / `HttpRequest` / `HttpResponse` (and, inside `writeFile` / `readBody`, block buffers that are
+locals of the call).  A schedule says which connection's handler takes its next turn. -/
+
+/-- a connection being served: the plans of the requests still to come, what is left to read, what was answered so far -/
+structure Conn where
+  plans : List Plan
+  inp : Inp
+  out : List (Option Request × Bytes)
+  alive : Bool
+deriving Inhabited
+
+def Conn.start (plans : List Plan) (wire : Bytes) (cuts : List Nat := []) : Conn :=
+  { plans := plans, inp := Inp.ofBytes wire cuts, out := [], alive := true }
+
+/-- one turn of this connection's handler thread (`serveStep`), touching nothing but the connection itself -/
+def Conn.step (opt : Bool) (base : Bytes) (c : Conn) : Conn :=
+  match c.plans with
+  | [] => c
+  | p :: ps =>
+    if c.alive then
+      let (q, w, keep, i') := serveStep opt base p c.inp
+      { plans := ps, inp := i', out := c.out ++ [(q, w)], alive := keep }
+    else { c with plans := ps, out := c.out ++ [(none, [])] }
+
+/-- the server state: connection number ↦ connection -/
+abbrev Server := Nat → Conn
+
+def Server.turn (opt : Bool) (base : Bytes) (s : Server) (k : Nat) : Server :=
+  fun j => if j = k then (s k).step opt base else s j
+
+/-- run the handler threads in the order given by the schedule (a list of connection numbers) -/
+def runSched (opt : Bool) (base : Bytes) : List Nat → Server → Server
+  | [], s => s
+  | k :: ks, s => runSched opt base ks (s.turn opt base k)
+
+def iterStep (opt : Bool) (base : Bytes) : Nat → Conn → Conn
+  | 0, c => c
+  | n + 1, c => iterStep opt base n (c.step opt base)
+
 end AslModel.HttpFrame
